@@ -367,7 +367,9 @@ def run(rec, cfg):
     for _ in range(cfg.scale(30, 300)):
         check_factor(rec, rng.choice([rng.randint(10 ** 6, 10 ** 9), rng.randint(10 ** 9, 10 ** 12), rng.choice([2 ** 20, 2 ** 30 - 1, 999983 * 999979, 10 ** 12, 720720 * 1001, 2 ** 39])]))
     # term grid
-    grid = [(c, v, e) for c in ["", "-", "1", "2", "4", "12", "0", "-1", "-3", "0.5", "2.5", "-0.25", "100", "007"] for v in ["", "x", "y", "Q"] for e in ["", "2", "3", "0", "1", "-2", "0.5", "2.5", "-1", "10"]]
+    grid = [(c, v, e) for c in ["", "-", "1", "2", "4", "12", "0", "-1", "-3", "0.5", "2.5", "-0.25", "100", "007",
+                                # coefficients next to 1 and -1 (precision boundaries: 1/49*49, 1 + 1e-10, one ulp above 1)
+                                "0.9999999999999999", "1.0000000001", "1.0000000000000002", "0.9999999999", "-1.0000000001", "-0.9999999999999999", "0.0000000001", "1.00001"] for v in ["", "x", "y", "Q"] for e in ["", "2", "3", "0", "1", "-2", "0.5", "2.5", "-1", "10"]]
     for i, (c, v, e) in enumerate(grid):
         if cfg.mine(i) and not (v == "" and e != "") and not (c in ("", "-") and v == ""):
             check_term_ex(rec, rng, c, v, e)
